@@ -287,4 +287,50 @@ def run : Prog → Globals → Globals × Bool × List Ev
     | (g1, true, ev) => (g1, true, ev)
     | (g1, false, ev) => (g1, true, ev ++ [.caught])
 
+/-! ### Histories: `e = UnitEnvironment(units)` … `e.close()` through the explicit API, lifetimes
+overlapping in any way (not necessarily nested) -/
+
+inductive HOp where
+  | opn (units : List (Sym × UnitDef))     -- `e = UnitEnvironment(units)`
+  | cls (i : Nat)                          -- `close()` of the i-th of the currently open environments
+  | use (s : Sym)                          -- `Quantity(1, s)`
+deriving Repr
+
+/-- Globals plus the environment objects that are open (in the order they were opened). -/
+structure HSt where
+  g : Globals
+  opens : List Env
+deriving DecidableEq, Repr
+
+inductive HEv where
+  | opened (ok : Bool) (g : Globals)
+  | closed (ok : Bool) (g : Globals)
+  | used (s : Sym) (ok : Bool)
+  | noop
+deriving Repr
+
+/-- Split a list at position `i`: (before, element, after). -/
+def pick : List Env → Nat → Option (List Env × Env × List Env)
+  | [], _ => none
+  | e :: t, 0 => some ([], e, t)
+  | e :: t, i + 1 =>
+    match pick t i with
+    | some (pre, x, post) => some (e :: pre, x, post)
+    | none => none
+
+def hstep (s : HSt) : HOp → HSt × HEv
+  | .opn units =>
+    match init s.g units with
+    | (g1, none) => (⟨g1, s.opens⟩, .opened false g1)
+    | (g1, some e) => (⟨g1, s.opens ++ [e]⟩, .opened true g1)
+  | .cls i =>
+    match pick s.opens i with
+    | none => (s, .noop)
+    | some (pre, e, post) => (⟨(close s.g e).1, pre ++ post⟩, .closed (close s.g e).2 (close s.g e).1)
+  | .use sym => (s, .used sym (resolves s.g sym))
+
+def hrun : List HOp → HSt → HSt × List HEv
+  | [], s => (s, [])
+  | op :: ops, s => ((hrun ops (hstep s op).1).1, (hstep s op).2 :: (hrun ops (hstep s op).1).2)
+
 end SciVerif.C09
